@@ -46,6 +46,9 @@ def session(draw):
         # time-out - change requests carry the caller's number, so the peer knows whose request it answers
         callers = [{'key': ['change', 'm:target'] if draw(st.integers(0, 3)) else draw(st.sampled_from(KEYS)),
                     'delay': draw(st.sampled_from([0, 0.5, 3.0, 10.2, 10.5, 11.0, 12.5]))} for _ in range(ncall)]
+    if draw(st.integers(0, 5)) == 0:
+        # one caller hands over data which can not be sent (not JSON serialisable): its own mistake, the others are not concerned
+        callers.insert(draw(st.integers(0, len(callers))), {'key': ['change', 'm:target'], 'delay': draw(st.sampled_from([0, 0, 0.5])), 'bad': 'unencodable'})
     plan = []
     for _ in range(draw(st.integers(0, 8))):
         kind = draw(st.sampled_from(['reply', 'reply', 'reply', 'error', 'update', 'stray', 'sleep', 'sleep'] + (['ignore'] * 3 if lossy else [])))
@@ -245,7 +248,7 @@ def run_session(case, preempt=None):
                 t0 = dsched.v_time()
                 try:
                     action, ident = c['key']
-                    r = client.request(action, ident, 100 + i if action == 'change' else None)
+                    r = client.request(action, ident, {1, 2} if c.get('bad') else 100 + i if action == 'change' else None)
                     out['results'][i] = ('reply', r[0], r[1], r[2], t0, dsched.v_time())
                 except Exception as e:   # noqa
                     out['results'][i] = ('exc', type(e).__name__, str(e), None, t0, dsched.v_time())
@@ -332,6 +335,16 @@ def check(ctx, case, preempt=None):
         kind, a, b, data, t0, t1 = results[i]
         action, ident = c['key']
         elapsed = t1 - t0
+        if c.get('bad'):
+            # a request which can not be sent never reaches the peer: its caller gets an error of whatever kind
+            if kind == 'reply':
+                ctx.finding('unsendable-request-answered', sub, f'caller {i}: {results[i][:4]!r}')
+                return
+            if elapsed > 13.0 + 1.5:
+                ctx.finding('caller-blocked-too-long', sub, f'caller {i} (unsendable data): {elapsed:.1f} s')
+                return
+            ctx.label(f'unsendable-request:{a}')
+            continue
         # (3) nobody waits longer than the time-outs of request(): 3 s for queueing + 10 s for the reply
         if elapsed > 13.0 + 1.5:
             ctx.finding('caller-blocked-too-long', sub, f'caller {i} {c["key"]}: {elapsed:.1f} s, result {results[i][:3]!r}')
